@@ -393,7 +393,23 @@ class C04(SimSpec):
             if rng.random() < 0.7:
                 g["time_based"] = False
         scen["max_nodes"] = rng.choice([None, 1, 1, 2])
+        if i % 8 == 3:
+            # the same rule among the jobs that a resubmission reruns: the head fails again (or not) and its flagged dependents,
+            # placed in the same / a later batch, must be canceled again exactly when a rerun blocker failed
+            for j in scen["jobs"]:
+                j["rc2"] = j["rc"] if rng.random() < 0.6 else rng.choice([0, 0, 1])
+            if not any(j["rc"] for j in scen["jobs"]):
+                by[names[0]]["rc"] = 1
+                by[names[0]]["rc2"] = 1
+            scen["resubmit"] = {"rounds": [{"failed": True, "missing": True, "successful": rng.random() < 0.3}]}
         return scen
+
+    def tasks(self, tier, seed):
+        out = SimSpec.tasks(self, tier, seed)
+        for t in out:
+            if t["args"]["scen"].get("resubmit"):
+                t["args"]["cls"] = "sim.resub:ResubSim"
+        return out
 
     @staticmethod
     def chain_len(scen):
@@ -522,6 +538,11 @@ class C06(SimSpec):
         scen["policy"]["finish_w"] = rng.choice([0.02, 0.05, 0.2])
         scen["policy"]["start_w"] = rng.choice([0.05, 0.2, 1.0])
         scen["user"]["try_submit"] = rng.choice([0, 1, 2, 3])
+        if i % 8 == 3:
+            # scheduler outage: the status query of one or two rounds fails through all its retries while batches are active and
+            # jobs are still unsubmitted; "the scheduler did not answer" must not be read as "no batch is active"
+            scen["faults"] = {"squeue_fail": 1.0, "squeue_fail_budget": rng.choice([7, 7, 14]), "max_recoveries": 12, "outage_freeze": rng.random() < 0.5}
+            scen["max_nodes"] = rng.choice([1, 2])
         if i % 8 == 7:
             scen["mode"] = "local"
             scen["groups"] = scen["groups"][:1]
@@ -584,7 +605,7 @@ class C09(SimSpec):
         scen["user"] = {"try_submit": rng.choice([0, 1, 2]), "show_status": rng.choice([0, 1, 2])}
         scen["obs_inside"] = True
         if i % 5 == 1:
-            scen["cancel"] = rng.choice([0.003, 0.01, 0.03])
+            scen["cancel"] = rng.choice([0.01, 0.02, 0.03])
         if i % 5 == 2:
             fl = lambda: {"failed": rng.random() < 0.8, "missing": rng.random() < 0.8, "successful": rng.random() < 0.3}
             scen["resubmit"] = {"rounds": [fl()] + ([fl()] if rng.random() < 0.3 else [])}
@@ -691,6 +712,22 @@ class C16(SimSpec):
             scen["user"] = {}
         if rng.random() < 0.15:
             scen["hooks"]["rc"] = {rng.choice(["teardown", "nteardown"]): 1}
+        if (i // 16) % 4 == 1:
+            # scheduler outage while several batches run: the status query of one or two rounds fails through all its retries;
+            # "no answer" must not be taken for "everything has finished" (teardown / completion before the last outcomes)
+            scen["faults"] = {"squeue_fail": 1.0, "squeue_fail_budget": rng.choice([7, 7, 14]), "max_recoveries": 12, "outage_freeze": rng.random() < 0.8}
+            free = rng.random() < 0.7  # everything is handed over in the first round: the outage hits a round with nothing left to submit
+            for j in scen["jobs"]:
+                if free or rng.random() < 0.6:
+                    j["blocked_by"] = []
+            for g in scen["groups"]:
+                g["time_based"] = False
+                g["batch"] = rng.randint(2, 3)
+            if free:
+                scen["max_nodes"] = None
+            # jobs outlast the round that runs into the outage (a user looking in, or the first node that finishes)
+            scen["policy"]["finish_w"] = rng.choice([0.01, 0.02, 0.03])
+            scen["user"] = {"try_submit": rng.choice([1, 2]), "show_status": 0, "p": 0.05, "late_try": 1}
         return scen
 
     def shape(self, t, r):
@@ -893,6 +930,9 @@ class C13(SimSpec):
         else:
             rs["rounds"] = [flags(), flags()] + ([flags()] if rng.random() < 0.3 else [])
             kind = 6
+        if kind in (1, 6) and rs["rounds"] and rng.random() < 0.6:
+            # resubmit-jobs -s <edited copy of submitter_groups.json>: new limits and HPC parameters for the same groups
+            rs["rounds"][0]["groups"] = scenario.changed_groups(rng, scen["groups"])
         scen["resubmit"] = rs
         scen["resub_kind"] = ["plain", "plain", "with_missing", "refuse_busy", "refuse_idle", "fault_in_command", "repeated"][kind]
         scen["obs_inside"] = kind in (0, 1)
@@ -1164,6 +1204,12 @@ class C15(SimSpec):
         elif i % 5 in (1, 3):
             # history extension: once the pipeline is complete the user resubmits the failed jobs of one stage
             scen["resubmit_stage"] = True
+        if i % 5 == 0:
+            # the user looks in (try-submit-jobs on the current stage) while its batches are alive and the scheduler reports them in
+            # any live state of its vocabulary (suspended, requeued, resizing ...): the stage is not over
+            scen["squeue_vocab"] = "full"
+            scen["user"] = {"try_submit": rng.choice([2, 3, 4]), "show_status": 0, "p": rng.choice([0.03, 0.08]), "late_try": 2}
+            scen["policy"]["finish_w"] = rng.choice([0.02, 0.05])
         if i % 10 == 7 and ns >= 2:
             # every sbatch of one stage is rejected: that stage completes synchronously with an error inside the process that
             # submitted it, and the following stages are submitted from nested processes
